@@ -6,6 +6,9 @@ CONSTANTS
   AllowCancel = TRUE
   AllowUserClose = FALSE
   AllowEarlyEnd = FALSE
+  MaxRenew = 0
+  FixRenew = TRUE
+  RenewModes = {FALSE}
   ErrorOnce = FALSE
 VIEW View
 INVARIANTS PrefixOfExpected ExactRowsAtEOF FragmentsConcatenate ErrorOnceThenEOF NoLeakedRegionScanner ClosedMeansNoCurrent
